@@ -114,6 +114,7 @@ class Translator:
         self.types.update(fn.local_types)
         self.bound = {}
         self.fresh = 0
+        self.mutates = False
 
     # ---------------------------------------------------------------- expressions
     def const(self, v):
@@ -528,6 +529,17 @@ class Translator:
                 # `hp[h['name']] = decoded_gene` : the loop body's result
                 binds = self.hoist([s.value], env)
                 return self.wrap_binds(binds, self.ret_wrap(self.expr(s.value, env)))
+            if len(s.targets) == 1 and isinstance(s.targets[0], ast.Subscript) \
+                    and isinstance(s.targets[0].value, ast.Name) \
+                    and self.types.get(s.targets[0].value.id) == 'Jesse.Candle' \
+                    and isinstance(s.targets[0].slice, ast.Constant) and s.targets[0].slice.value in CANDLE_FIELDS:
+                # in-place mutation of a candle row: functional update (the callee mutates its argument)
+                nm = s.targets[0].value.id
+                fld = CANDLE_FIELDS[s.targets[0].slice.value]
+                env2 = dict(env)
+                env2[nm] = f'({{ {env[nm]} with {fld} := {self.expr(s.value, env)} }})'
+                self.mutates = True
+                return self.block(rest, env2, depth)
             if len(s.targets) != 1 or not isinstance(s.targets[0], ast.Name):
                 raise TErr(f'assignment target {ast.unparse(s)}')
             if s.targets[0].id in self.fn.skip_assign:
@@ -844,6 +856,11 @@ def build_spec():
            C, kind='except', local_types={'accept_forming_candles': 'Prop'},
            call_map={'len': 'lenR', 'jh.timeframe_to_one_minutes': 'natR'}),
     ]))
+    # ---- Gen/Sim (pure helpers of the simulator)
+    S.append(('Sim', [
+        Fn('jesse/modes/backtest_mode.py', '_get_fixed_jumped_candle', 'fixJump',
+           [('previous_candle', 'prev', C), ('candle', 'candle', C)], C),
+    ]))
     # ---- Gen/Helpers
     S.append(('Helpers', [
         Fn(helpers, 'convert_number', 'convertNumber',
@@ -1050,7 +1067,7 @@ end Jesse.Gen
 ''')
     deps = {
         'CandleSvc': ['Prelude'], 'Helpers': ['Prelude'], 'Utils': ['Prelude', 'Helpers'],
-        'Position': ['Prelude'], 'Routing': ['Prelude', 'Helpers'], 'Tables': ['Prelude'],
+        'Position': ['Prelude'], 'Routing': ['Prelude', 'Helpers'], 'Tables': ['Prelude'], 'Sim': ['Prelude'],
     }
     glue = {
         'Utils': '',
